@@ -4,9 +4,11 @@
 -/
 import Lc.Model.Mountinfo
 import Lc.Spec.KernelEscape
+import Lc.Spec.KernelRender
+import Lc.Lemmas.Mountinfo
 
 namespace Lc.Props.C12
-open Lc Lc.Mountinfo Lc.Spec
+open Lc Lc.Mountinfo Lc.Spec Lc.Lemmas.Mountinfo
 
 theorem unescape_cons_ne (x : Nat) (rest : Bytes) (h : x ≠ 92) :
     unescape (x :: rest) = x :: unescape rest := by
@@ -46,5 +48,536 @@ theorem unescape_mangle (E : Nat → Bool) (hE : E 92 = true) (s : Bytes)
 
 example : unescape (mangleWith pathEsc b!"/mnt/my base\\x\t") = b!"/mnt/my base\\x\t" := by
   decide
+
+/-! ## 1. escaped text contains no separator -/
+
+/-- A byte of the escape set (other than the backslash and the octal digits, which the
+    escape sequences themselves consist of) does not occur in escaped text. -/
+theorem mangle_no_sep (E : Nat → Bool) (c : Nat) (hE : E c = true) (h92 : c ≠ 92)
+    (hd : ¬(48 ≤ c ∧ c ≤ 55)) (s : Bytes) (hs : ∀ b ∈ s, b < 256) : c ∉ mangleWith E s :=
+  not_mem_mangleWith_of_esc hs hE h92 hd
+
+/-- escaped paths contain no blank, tab or newline; escaped option values additionally no
+    comma and no '=' -/
+theorem mangle_no_sep_fields (s : Bytes) (hs : ∀ b ∈ s, b < 256) :
+    32 ∉ mangleWith pathEsc s ∧ 9 ∉ mangleWith pathEsc s ∧ 10 ∉ mangleWith pathEsc s ∧
+    32 ∉ mangleWith srcEsc s ∧ 10 ∉ mangleWith srcEsc s ∧
+    32 ∉ mangleWith optEsc s ∧ 10 ∉ mangleWith optEsc s ∧ 44 ∉ mangleWith optEsc s ∧
+    61 ∉ mangleWith optEsc s := by
+  refine ⟨?_, ?_, ?_, ?_, ?_, ?_, ?_, ?_, ?_⟩ <;>
+    exact mangle_no_sep _ _ (by decide) (by decide) (by decide) s hs
+
+example : 32 ∉ mangleWith pathEsc b!"/mnt/my base\n\t x" :=
+  mangle_no_sep _ _ (by decide) (by decide) (by decide) _ (by decide)
+
+/-! ## 2. overlay options -/
+
+/-- `lastVal` is a left fold of this step -/
+def lastValStep (k : Bytes) (acc : Bytes) (o : SOpt) : Bytes :=
+  if o.key = k then (match o.val with | some v => v | none => acc) else acc
+
+theorem lastVal_eq_foldl (k : Bytes) (l : List SOpt) : lastVal k l = l.foldl (lastValStep k) [] :=
+  rfl
+
+theorem ovlStep_render (acc : OvlOpts) (o : SOpt) (hk : 61 ∉ o.key)
+    (hv : ∀ v, o.val = some v → IsB v) :
+    ovlStep acc (renderSOpt o) =
+      { lower := lastValStep b!"lowerdir" acc.lower o,
+        upper := lastValStep b!"upperdir" acc.upper o,
+        work := lastValStep b!"workdir" acc.work o } := by
+  cases acc with
+  | mk lo up wk =>
+  unfold ovlStep renderSOpt lastValStep
+  cases hval : o.val with
+  | none =>
+    simp only [splitN2_noSep 61 _ hk]
+    simp
+  | some v =>
+    simp only [splitN2_append_sep 61 _ _ hk]
+    have hu : unescape (mangleWith optEsc v) = v :=
+      unescape_mangle optEsc (by decide) v (hv v hval)
+    by_cases h1 : o.key = b!"lowerdir"
+    · simp [h1, hu]
+    · by_cases h2 : o.key = b!"upperdir"
+      · simp [h2, hu]
+      · by_cases h3 : o.key = b!"workdir"
+        · simp [h3, hu]
+        · simp [h1, h2, h3]
+
+theorem foldl_ovlStep_render (l : List SOpt) (acc : OvlOpts)
+    (h : ∀ o ∈ l, 61 ∉ o.key ∧ ∀ v, o.val = some v → IsB v) :
+    (l.map renderSOpt).foldl ovlStep acc =
+      { lower := l.foldl (lastValStep b!"lowerdir") acc.lower,
+        upper := l.foldl (lastValStep b!"upperdir") acc.upper,
+        work := l.foldl (lastValStep b!"workdir") acc.work } := by
+  induction l generalizing acc with
+  | nil => cases acc; rfl
+  | cons o l ih =>
+    simp only [List.map_cons, List.foldl_cons]
+    rw [ovlStep_render acc o (h o (by simp)).1 (h o (by simp)).2,
+      ih _ (fun x hx => h x (by simp [hx]))]
+
+/-- The overlay directories are recovered from the super-option text for every option
+    list: the three keys in any order, any number of foreign options with or without
+    value, repeated keys (the last one counts), any bytes in the values.  Hypotheses: keys
+    contain no ',' and no '='; values are byte strings. -/
+theorem overlay_opts_recovered (l : List SOpt)
+    (h : ∀ o ∈ l, 44 ∉ o.key ∧ 61 ∉ o.key ∧ ∀ v, o.val = some v → IsB v) :
+    parseOverlayOpts (renderSuper l) =
+      { lower := lastVal b!"lowerdir" l, upper := lastVal b!"upperdir" l,
+        work := lastVal b!"workdir" l } := by
+  by_cases hl : l = []
+  · subst hl
+    simp [parseOverlayOpts, renderSuper, joinWith, splitOn, ovlStep, splitN2, lastVal]
+  · unfold parseOverlayOpts renderSuper
+    rw [splitOn_joinWith 44 _ (by simpa using hl)]
+    · rw [foldl_ovlStep_render l {} (fun o ho => ⟨(h o ho).2.1, (h o ho).2.2⟩)]
+      rfl
+    · intro p hp
+      rw [List.mem_map] at hp
+      obtain ⟨o, ho, rfl⟩ := hp
+      exact not_mem_renderSOpt (h o ho).1 (by decide) (h o ho).2.2 (by decide) (by decide)
+        (by decide)
+
+/-- in the shape of `KMount.WF.super` -/
+theorem overlay_opts_recovered_wf (l : List SOpt)
+    (h : ∀ o ∈ l, KeyOK o.key ∧ (∀ v, o.val = some v → IsB v)) :
+    parseOverlayOpts (renderSuper l) =
+      { lower := lastVal b!"lowerdir" l, upper := lastVal b!"upperdir" l,
+        work := lastVal b!"workdir" l } :=
+  overlay_opts_recovered l (fun o ho => ⟨(h o ho).1.2.1, (h o ho).1.2.2, (h o ho).2⟩)
+
+/-- options in a non-canonical order, foreign options, a repeated key, a comma and a
+    blank inside a value -/
+example : (parseOverlayOpts (renderSuper
+      [⟨b!"rw", none⟩, ⟨b!"workdir", some b!"/b c/w"⟩, ⟨b!"lowerdir", some b!"/old"⟩,
+       ⟨b!"index", some b!"off"⟩, ⟨b!"lowerdir", some b!"/b c/x,y:/l2"⟩,
+       ⟨b!"upperdir", some b!"/b c/u=1"⟩])).lower = b!"/b c/x,y:/l2" := by
+  rw [overlay_opts_recovered _ (by simp [IsB])]
+  decide
+
+/-! ## 3. one line -/
+
+/-- the entry a reader must produce for mount `m`, given its shadow flag -/
+def entryWith (sh : Bool) (m : KMount) : MountType :=
+  let e := expectedOf m
+  ⟨e.lower, e.mountpoint, e.upper, e.work, e.fstype, e.options, sh, m.dev, m.root⟩
+
+theorem shadowing_contains (f : Bytes) : shadowingFsTypes.contains f = isShadowingType f := by
+  simp only [shadowingFsTypes, isShadowingType, List.contains, List.elem]
+  generalize (f == b!"devtmpfs") = x
+  generalize (f == b!"sysfs") = y
+  cases x <;> cases y <;> rfl
+
+/-- Reading one kernel-rendered line in any parser state appends exactly the expected
+    entry (mountpoint, fstype, options, overlay lower/upper/work -- empty unless the type
+    is overlay --, device number and root, all unescaped), registers the device and its
+    root mountpoint, and updates the shadow set: for any number of optional fields and
+    any bytes in root, mountpoint, source and overlay directories. -/
+theorem probeLine_render (m : KMount) (wf : m.WF) (st : PState) :
+    probeLine st (renderLine m) = .ok
+      { m := { list := st.m.list ++
+                 [entryWith (!isShadowingType m.fstype && st.shadow.contains m.parent) m],
+               devices := addDevice st.m.devices m.dev m.source m.root m.mp },
+        shadow := if isShadowingType m.fstype || st.shadow.contains m.parent
+                  then m.id :: st.shadow else st.shadow } := by
+  have hsegs : splitOn 32 (renderLine m) =
+      [m.id, m.parent, m.dev, mangleWith pathEsc m.root, mangleWith pathEsc m.mp, m.opts]
+        ++ m.optional ++ [[45], m.fstype, mangleWith srcEsc m.source, renderSuper m.super] :=
+    splitOn_renderLine wf
+  rw [probeLine_of_segs st _ _ _ _ _ _ _ _ _ _ _ hsegs (fun o ho => (wf.optional o ho).2)]
+  unfold lineResult
+  rw [unescape_mangle pathEsc (by decide) _ wf.root, unescape_mangle pathEsc (by decide) _ wf.mp,
+    unescape_mangle srcEsc (by decide) _ wf.source, shadowing_contains]
+  by_cases hov : m.fstype = b!"overlay"
+  · rw [if_pos hov, overlay_opts_recovered_wf _ wf.super]
+    simp [entryWith, expectedOf, hov]
+  · rw [if_neg hov]
+    simp [entryWith, expectedOf, hov]
+
+/-- a bind-mounted overlay below a base path with a blank, two optional fields, overlay
+    options in non-canonical order with a foreign option in between -/
+def exMount : KMount :=
+  { id := b!"52", parent := b!"31", dev := b!"0:47", root := b!"/", mp := b!"/my base/layers/x/build",
+    opts := b!"rw,relatime", optional := [b!"shared:12", b!"master:3"], fstype := b!"overlay",
+    source := b!"overlay",
+    super := [⟨b!"rw", none⟩, ⟨b!"upperdir", some b!"/my base/layers/x/overlayfs/upperdir"⟩,
+              ⟨b!"index", some b!"off"⟩, ⟨b!"lowerdir", some b!"/my base/layers/b/build"⟩,
+              ⟨b!"workdir", some b!"/my base/layers/x/overlayfs/workdir"⟩] }
+
+/-- a devtmpfs mount and a child of it: the child is a shadowed submount -/
+def exDev : KMount :=
+  { id := b!"24", parent := b!"1", dev := b!"0:6", root := b!"/", mp := b!"/dev", opts := b!"rw,nosuid",
+    optional := [], fstype := b!"devtmpfs", source := b!"devtmpfs", super := [⟨b!"rw", none⟩] }
+def exPts : KMount :=
+  { id := b!"25", parent := b!"24", dev := b!"0:22", root := b!"/", mp := b!"/dev/pts", opts := b!"rw",
+    optional := [b!"shared:3"], fstype := b!"devpts", source := b!"devpts",
+    super := [⟨b!"rw", none⟩, ⟨b!"gid", some b!"5"⟩] }
+
+macro "wf_concrete" : tactic =>
+  `(tactic| (constructor <;> simp [TokenOK, KeyOK, IsB, exMount, exDev, exPts]))
+
+theorem exMount_wf : exMount.WF := by wf_concrete
+theorem exDev_wf : exDev.WF := by wf_concrete
+theorem exPts_wf : exPts.WF := by wf_concrete
+
+set_option maxRecDepth 8192 in
+example : renderLine exMount =
+    b!"52 31 0:47 / /my\\040base/layers/x/build rw,relatime shared:12 master:3 - overlay overlay rw,upperdir=/my\\040base/layers/x/overlayfs/upperdir,index=off,lowerdir=/my\\040base/layers/b/build,workdir=/my\\040base/layers/x/overlayfs/workdir" := by
+  rfl
+
+example : ∃ st', probeLine {} (renderLine exMount) = .ok st' ∧
+    st'.m.list = [⟨b!"/my base/layers/b/build", b!"/my base/layers/x/build",
+      b!"/my base/layers/x/overlayfs/upperdir", b!"/my base/layers/x/overlayfs/workdir",
+      b!"overlay", b!"rw,relatime", false, b!"0:47", b!"/"⟩] :=
+  ⟨_, probeLine_render exMount exMount_wf {}, by decide⟩
+
+/-! ## 4. the whole table -/
+
+/-- the entry expected for a mount that is listed after the mounts `pre` -/
+def entryOf (pre : List KMount) (m : KMount) : MountType := entryWith (inShadowAt pre m) m
+
+/-- the entries expected for a table: one per mount in table order; the shadow flag of
+    each is computed from the part of the table before it -/
+def entries (t : List KMount) : List MountType := t.mapIdx fun i m => entryOf (t.take i) m
+
+/-- the device table expected for a table (first mount source per `major:minor`, the
+    mountpoints of the mounts of its root directory) -/
+def devicesOf (t : List KMount) : List Device :=
+  t.foldl (fun d m => addDevice d m.dev m.source m.root m.mp) []
+
+/-- the shadow flags of the expected entries are the specification's `shadowFlags` (which
+    the driver's oracle compares the implementation's observation with) -/
+theorem entries_inShadow (t : List KMount) : (entries t).map (·.inShadow) = shadowFlags t := by
+  apply List.ext_getElem?
+  intro i
+  simp [entries, shadowFlags, entryOf, entryWith]
+  rfl
+
+theorem probeLines_render (rest pre : List KMount) (wf : ∀ m ∈ rest, m.WF) (st : PState)
+    (hsh : st.shadow = shadowIds pre) :
+    probeLines st (rest.map renderLine) = .ok
+      { m := { list := st.m.list ++ rest.mapIdx (fun i m => entryOf (pre ++ rest.take i) m),
+               devices := rest.foldl (fun d m => addDevice d m.dev m.source m.root m.mp)
+                 st.m.devices },
+        shadow := shadowIds (pre ++ rest) } := by
+  induction rest generalizing pre st with
+  | nil =>
+    subst_vars
+    cases st with
+    | mk m sh =>
+      cases m
+      simp_all [probeLines]
+  | cons m rest ih =>
+    simp only [List.map_cons, probeLines]
+    rw [probeLine_render m (wf m (by simp)) st]
+    simp only
+    rw [ih (pre ++ [m]) (fun x hx => wf x (by simp [hx])) _
+      (by simp only [shadowIds_append_one, shadowStep, hsh])]
+    simp only [List.mapIdx_cons, List.take_zero, List.take_succ_cons, List.append_nil,
+      List.append_assoc, List.cons_append, List.nil_append, List.foldl_cons, entryOf,
+      inShadowAt, hsh]
+
+/-- **The mount table is read back exactly.**  For every table of well-formed mounts (any
+    number of mounts, any parent structure, 0..n optional fields per line, any bytes in
+    paths, any file-system types, overlay options in any order) the parser returns, in
+    table order, exactly the expected entry of every mount and the expected device
+    table. -/
+theorem probe_render (t : List KMount) (wf : ∀ m ∈ t, m.WF) :
+    probeMounts (render t) = .ok { list := entries t, devices := devicesOf t } := by
+  unfold probeMounts
+  rw [scanLines_render wf, probeLines_render t [] wf {} rfl]
+  simp [entries, devicesOf, Except.map]
+
+example : probeMounts (render [exDev, exPts, exMount]) = .ok
+    { list := [entryWith false exDev, entryWith true exPts, entryWith false exMount],
+      devices := devicesOf [exDev, exPts, exMount] } := by
+  rw [probe_render _ (by
+    intro m hm
+    simp only [List.mem_cons, List.not_mem_nil, or_false] at hm
+    rcases hm with rfl | rfl | rfl
+    · exact exDev_wf
+    · exact exPts_wf
+    · exact exMount_wf)]
+  congr 1
+
+set_option maxRecDepth 8192 in
+/-- `WF.superLast` is needed, and is the only restriction on path bytes: the kernel does
+    not escape a carriage return, so an overlay whose *last* super option value ends in
+    CR is printed as a line ending in "\r\n", and `bufio.ScanLines` drops the "\r" (the
+    reader reports workdir "/w" for the mount whose workdir is "/w\r").  A CR anywhere
+    else in a path is read back exactly (`probe_render`). -/
+theorem cr_at_line_end_lost :
+    let m : KMount := { exMount with super := [⟨b!"rw", none⟩, ⟨b!"lowerdir", some b!"/l"⟩,
+      ⟨b!"upperdir", some b!"/u\r"⟩, ⟨b!"workdir", some b!"/w\r"⟩] }
+    (expectedOf m).work = b!"/w\r" ∧ (expectedOf m).upper = b!"/u\r" ∧
+    (probeMounts (render [m])).toOption.map (·.list.map fun e => (e.source2, e.workdir)) =
+      some [(b!"/u\r", b!"/w")] := by
+  decide
+
+/-! ## 5. lookup by mountpoint -/
+
+theorem entryOf_fields (pre : List KMount) (m : KMount) :
+    (entryOf pre m).mountpoint = m.mp ∧ (entryOf pre m).fstype = m.fstype ∧
+    (entryOf pre m).options = m.opts ∧ (entryOf pre m).stDev = m.dev ∧
+    (entryOf pre m).root = m.root ∧ (entryOf pre m).inShadow = inShadowAt pre m ∧
+    (m.fstype = b!"overlay" →
+      (entryOf pre m).source = lastVal b!"lowerdir" m.super ∧
+      (entryOf pre m).source2 = lastVal b!"upperdir" m.super ∧
+      (entryOf pre m).workdir = lastVal b!"workdir" m.super) ∧
+    (m.fstype ≠ b!"overlay" →
+      (entryOf pre m).source = [] ∧ (entryOf pre m).source2 = [] ∧
+      (entryOf pre m).workdir = []) := by
+  by_cases h : m.fstype = b!"overlay" <;> simp [entryOf, entryWith, expectedOf, h]
+
+theorem entries_split (pre post : List KMount) (km : KMount) :
+    ∃ A B, entries (pre ++ km :: post) = A ++ entryOf pre km :: B ∧
+      ∀ b ∈ B, ∃ x ∈ post, b.mountpoint = x.mp := by
+  unfold entries
+  rw [List.mapIdx_append, List.mapIdx_cons]
+  simp only [Nat.zero_add, List.take_left']
+  refine ⟨_, _, rfl, ?_⟩
+  · intro b hb
+    rw [List.mem_mapIdx] at hb
+    obtain ⟨i, hi, rfl⟩ := hb
+    exact ⟨post[i], List.getElem_mem hi, (entryOf_fields _ _).1⟩
+
+/-- `GetMount(path)` on a parsed table returns the entry of the *last* mount with that
+    mountpoint (the one visible at that path), whatever bytes the path contains. -/
+theorem getMount_last (pre post : List KMount) (km : KMount)
+    (wf : ∀ m ∈ pre ++ km :: post, m.WF) (hlast : ∀ x ∈ post, x.mp ≠ km.mp) :
+    ∃ M, probeMounts (render (pre ++ km :: post)) = .ok M ∧
+      getMount M km.mp = some (entryOf pre km) := by
+  refine ⟨_, probe_render _ wf, ?_⟩
+  obtain ⟨A, B, hAB, hB⟩ := entries_split pre post km
+  unfold getMount
+  simp only [hAB]
+  apply find?_reverse_last
+  · simp [(entryOf_fields pre km).1]
+  · intro b hb
+    obtain ⟨x, hx, hbx⟩ := hB b hb
+    simp [hbx, hlast x hx]
+
+/-- In a table with pairwise distinct mountpoints every mount is found at its mountpoint
+    with exactly its expected entry. -/
+theorem getMount_recovers (t : List KMount) (wf : ∀ m ∈ t, m.WF)
+    (hd : t.Pairwise (fun a b => a.mp ≠ b.mp)) :
+    ∃ M, probeMounts (render t) = .ok M ∧
+      ∀ pre km post, t = pre ++ km :: post → getMount M km.mp = some (entryOf pre km) := by
+  refine ⟨_, probe_render t wf, ?_⟩
+  intro pre km post ht
+  subst ht
+  have hlast : ∀ x ∈ post, x.mp ≠ km.mp := by
+    rw [List.pairwise_append] at hd
+    have := (List.pairwise_cons.mp hd.2.1).1
+    intro x hx e
+    exact this x hx e.symm
+  obtain ⟨M, hM, hg⟩ := getMount_last pre post km wf hlast
+  rw [probe_render _ wf] at hM
+  cases hM
+  exact hg
+
+example : ∃ M, probeMounts (render [exDev, exPts, exMount]) = .ok M ∧
+    getMount M b!"/my base/layers/x/build" = some (entryWith false exMount) ∧
+    getMount M b!"/dev/pts" = some (entryWith true exPts) := by
+  have wf : ∀ m ∈ [exDev, exPts, exMount], m.WF := by
+    intro m hm
+    simp only [List.mem_cons, List.not_mem_nil, or_false] at hm
+    rcases hm with rfl | rfl | rfl
+    · exact exDev_wf
+    · exact exPts_wf
+    · exact exMount_wf
+  obtain ⟨M, hM, hg⟩ := getMount_recovers _ wf (by decide)
+  exact ⟨M, hM, hg [exDev, exPts] exMount [] rfl, hg [exDev] exPts [exMount] rfl⟩
+
+/-- **A layer is recognised as mounted whatever bytes its base path contains.**  If the
+    table lists a mount at `base/layers/name/build` (and no later mount covers that very
+    path) then looking that path up in the parsed table finds it, with its type and
+    overlay directories: for every byte string `base` (blanks, tabs, newlines,
+    backslashes, escape look-alikes, ...). -/
+theorem layer_recognised (base name : Bytes) (pre post : List KMount) (km : KMount)
+    (hmp : km.mp = base ++ b!"/layers/" ++ name ++ b!"/build")
+    (wf : ∀ m ∈ pre ++ km :: post, m.WF) (hlast : ∀ x ∈ post, x.mp ≠ km.mp) :
+    ∃ M e, probeMounts (render (pre ++ km :: post)) = .ok M ∧
+      getMount M (base ++ b!"/layers/" ++ name ++ b!"/build") = some e ∧
+      e.mountpoint = base ++ b!"/layers/" ++ name ++ b!"/build" ∧ e.fstype = km.fstype ∧
+      (km.fstype = b!"overlay" → e.source = lastVal b!"lowerdir" km.super ∧
+        e.source2 = lastVal b!"upperdir" km.super ∧ e.workdir = lastVal b!"workdir" km.super) := by
+  obtain ⟨M, hM, hg⟩ := getMount_last pre post km wf hlast
+  have hf := entryOf_fields pre km
+  exact ⟨M, entryOf pre km, hM, hmp ▸ hg, hmp ▸ hf.1, hf.2.1, hf.2.2.2.2.2.2.1⟩
+
+/-- the overlay mount layercake makes for layer `name` over layer "b" below `base` -/
+def layerMount (base name : Bytes) : KMount :=
+  { id := b!"77", parent := b!"30", dev := b!"0:50", root := b!"/",
+    mp := base ++ b!"/layers/" ++ name ++ b!"/build", opts := b!"rw,relatime",
+    optional := [b!"shared:1"], fstype := b!"overlay", source := b!"overlay",
+    super := [⟨b!"rw", none⟩, ⟨b!"lowerdir", some (base ++ b!"/layers/b/build")⟩,
+              ⟨b!"upperdir", some (base ++ b!"/layers/" ++ name ++ b!"/overlayfs/upperdir")⟩,
+              ⟨b!"workdir", some (base ++ b!"/layers/" ++ name ++ b!"/overlayfs/workdir")⟩] }
+
+theorem getLast?_append_ne13 (a b : Bytes) (hne : b ≠ []) (hb : b.getLast? ≠ some 13) :
+    (a ++ b).getLast? ≠ some 13 := by
+  rw [List.getLast?_append]
+  cases h : b.getLast? with
+  | none => exact absurd (List.getLast?_eq_none_iff.mp h) hne
+  | some x => rw [h] at hb; simpa using hb
+
+theorem isB_append {a b : Bytes} (ha : IsB a) (hb : IsB b) : IsB (a ++ b) := by
+  intro x hx
+  rcases List.mem_append.mp hx with h | h
+  · exact ha x h
+  · exact hb x h
+
+/-- the hypotheses of `layer_recognised` are satisfiable for *every* base path and layer
+    name made of bytes -/
+theorem layerMount_wf (base name : Bytes) (hb : IsB base) (hn : IsB name) :
+    (layerMount base name).WF := by
+  have lit : ∀ {s : Bytes}, (∀ x ∈ s, x < 256) → IsB s := fun h => h
+  constructor
+  case mp => exact isB_append (isB_append (isB_append hb (by simp [IsB])) hn) (by simp [IsB])
+  case super =>
+    intro o ho
+    simp only [layerMount, List.mem_cons, List.not_mem_nil, or_false] at ho
+    rcases ho with rfl | rfl | rfl | rfl
+    · simp [KeyOK, TokenOK]
+    · refine ⟨by simp [KeyOK, TokenOK], ?_⟩
+      intro v hv; cases hv
+      exact isB_append hb (by simp [IsB])
+    · refine ⟨by simp [KeyOK, TokenOK], ?_⟩
+      intro v hv; cases hv
+      exact isB_append (isB_append (isB_append hb (by simp [IsB])) hn) (by simp [IsB])
+    · refine ⟨by simp [KeyOK, TokenOK], ?_⟩
+      intro v hv; cases hv
+      exact isB_append (isB_append (isB_append hb (by simp [IsB])) hn) (by simp [IsB])
+  case superLast =>
+    intro o ho v hv
+    simp only [layerMount, List.getLast?_cons_cons, List.getLast?_singleton,
+      Option.some.injEq] at ho
+    subst ho
+    cases hv
+    exact getLast?_append_ne13 _ _ (by simp) (by decide)
+  all_goals simp [layerMount, TokenOK, IsB]
+
+/-- for every base path: after the mount the layer is found, as an overlay over the
+    right directories -/
+theorem layer_recognised_any_base (base name : Bytes) (hb : IsB base) (hn : IsB name) :
+    ∃ M e, probeMounts (render [exDev, exPts, layerMount base name]) = .ok M ∧
+      getMount M (base ++ b!"/layers/" ++ name ++ b!"/build") = some e ∧
+      e.fstype = b!"overlay" ∧ e.source = base ++ b!"/layers/b/build" ∧
+      e.workdir = base ++ b!"/layers/" ++ name ++ b!"/overlayfs/workdir" := by
+  have wf : ∀ m ∈ [exDev, exPts] ++ layerMount base name :: [], m.WF := by
+    intro m hm
+    simp only [List.cons_append, List.nil_append, List.mem_cons, List.not_mem_nil, or_false] at hm
+    rcases hm with rfl | rfl | rfl
+    · exact exDev_wf
+    · exact exPts_wf
+    · exact layerMount_wf base name hb hn
+  obtain ⟨M, e, hM, hg, _, hf, hov⟩ :=
+    layer_recognised base name [exDev, exPts] [] (layerMount base name) rfl wf (by simp)
+  have := hov rfl
+  refine ⟨M, e, hM, hg, hf, ?_, ?_⟩
+  · rw [this.1]; simp [layerMount, lastVal]
+  · rw [this.2.2]; simp [layerMount, lastVal]
+
+/-! ## 6. shadowed submounts, bind-source candidates -/
+
+/-- **InShadow ⇔ a proper ancestor is devtmpfs/sysfs.**  In a table with pairwise
+    distinct mount ids that lists parents before children (a parent id may also refer to
+    no listed mount, or to the mount itself as the kernel prints for the top of the tree),
+    the shadow flag expected -- and by `probe_render` reported -- for a mount is set
+    exactly when the mount is not itself of a shadowing type and some proper ancestor,
+    following parent ids, is. -/
+theorem shadow_iff_ancestor (t pre post : List KMount) (km : KMount)
+    (ht : t = pre ++ km :: post) (hid : DistinctIds t) (hpf : ParentsFirst t) :
+    (entryOf pre km).inShadow = true ↔
+      (isShadowingType km.fstype = false ∧
+        ∃ a, Ancestor t a km ∧ isShadowingType a.fstype = true) := by
+  have hmem := mem_shadowIds t hid hpf pre (km :: post) ht
+  have hidp : ∀ x ∈ pre, x.id ≠ km.id := by
+    intro x hx
+    have := hid
+    unfold DistinctIds at this
+    rw [ht, List.pairwise_append] at this
+    exact this.2.2 x hx km (by simp)
+  rw [(entryOf_fields pre km).2.2.2.2.2.1]
+  unfold inShadowAt
+  rw [Bool.and_eq_true, Bool.not_eq_true', List.contains_iff_mem, hmem]
+  constructor
+  · rintro ⟨h1, x, hx, hxid, hsx⟩
+    exact ⟨h1, hsx.child ⟨by rw [ht]; simp [hx], hxid, hidp x hx⟩⟩
+  · rintro ⟨h1, a, ha, hs⟩
+    obtain ⟨b, hb, hsb⟩ := parent_of_ancestor ha hs
+    refine ⟨h1, b, ?_, hb.2.1, hsb⟩
+    have hbt := hb.1
+    rw [ht] at hbt
+    rcases List.mem_append.mp hbt with h | h
+    · exact h
+    · rcases List.mem_cons.mp h with h | h
+      · subst h; exact absurd rfl hb.2.2
+      · exact absurd hb.2.1 (hpf pre km post ht b h)
+
+/-- /dev (devtmpfs) -> /dev/pts -> a bind mount below it: child and grandchild are
+    shadowed, /dev itself and an unrelated mount are not -/
+example :
+    let sub : KMount := { exPts with id := b!"26", parent := b!"25", mp := b!"/dev/pts/x" }
+    let t := [exDev, exPts, sub, exMount]
+    DistinctIds t ∧ ParentsFirst t ∧
+    (entries t).map (·.inShadow) = [false, true, true, false] := by
+  refine ⟨by unfold DistinctIds; decide, ?_, by decide⟩
+  intro pre m post ht x hx
+  have hlen := congrArg List.length ht
+  simp only [List.length_cons, List.length_nil, List.length_append] at hlen
+  match pre, ht with
+  | [], ht => simp at ht; obtain ⟨rfl, rfl⟩ := ht; revert x; decide
+  | [_], ht => simp at ht; obtain ⟨_, rfl, rfl⟩ := ht; revert x; decide
+  | [_, _], ht => simp at ht; obtain ⟨_, _, rfl, rfl⟩ := ht; revert x; decide
+  | [_, _, _], ht => simp at ht; obtain ⟨_, _, _, rfl, rfl⟩ := ht; revert x; decide
+  | _ :: _ :: _ :: _ :: _ :: _, ht => simp at hlen; omega
+
+/-- **Bind-source candidates.**  For every mount of every table, `GetMountSources` on
+    the parsed table returns exactly the candidates the specification lists: the overlay
+    lowerdir if there is one; otherwise the device's mount source (for a mount of the
+    device's root directory) followed by `mountpoint-of-a-root-mount/root` for every
+    mount of the same device's root directory, except the mount's own mountpoint. -/
+theorem sources_recovered (t : List KMount) (wf : ∀ m ∈ t, m.WF) :
+    ∃ M, probeMounts (render t) = .ok M ∧
+      ∀ pre km post, t = pre ++ km :: post →
+        getMountSources M (entryOf pre km) = .ok (expectedSources t km) := by
+  refine ⟨_, probe_render t wf, ?_⟩
+  intro pre km post ht
+  have hf := entryOf_fields pre km
+  unfold getMountSources getDevice
+  simp only [devicesOf, hf.2.2.2.1, find?_devices, devLookup]
+  have hkm : km ∈ t := by rw [ht]; simp
+  cases hfind : t.find? (·.dev == km.dev) with
+  | none =>
+    have := List.find?_eq_none.mp hfind km hkm
+    simp at this
+  | some f =>
+    simp only [Option.map_some]
+    unfold expectedSources
+    by_cases hov : km.fstype = b!"overlay"
+    · have ho := hf.2.2.2.2.2.2.1 hov
+      by_cases hl : (lastVal b!"lowerdir" km.super).length > 0
+      · simp [ho.1, hl, hov]
+      · simp [ho.1, hl, hf.2.2.2.2.1, hf.1, hfind]
+    · have ho := hf.2.2.2.2.2.2.2 hov
+      simp [ho.1, hov, hf.2.2.2.2.1, hf.1, hfind]
+
+/-- a bind mount of a subdirectory of the device that is mounted at "/my base": its
+    source candidate is the path below that mountpoint -/
+def exDisk : KMount :=
+  { id := b!"30", parent := b!"1", dev := b!"8:1", root := b!"/", mp := b!"/my base", opts := b!"rw",
+    optional := [b!"shared:1"], fstype := b!"ext4", source := b!"/dev/sda1", super := [⟨b!"rw", none⟩] }
+def exBind : KMount :=
+  { exDisk with id := b!"31", parent := b!"30", root := b!"/pkg dir", mp := b!"/my base/layers/x/build/var/db" }
+
+example : expectedSources [exDisk, exBind] exBind = [b!"/my base/pkg dir"] ∧
+    expectedSources [exDisk, exBind] exDisk = [b!"/dev/sda1"] := by
+  decide
+
+example : exDisk.WF ∧ exBind.WF := by
+  constructor <;> constructor <;> simp [TokenOK, KeyOK, IsB, exDisk, exBind]
 
 end Lc.Props.C12
